@@ -1,5 +1,5 @@
 (* line: which(1 = Python tables, 0 = C tables) max_entity_size then the code points of the input
-   out: T<cp.cp...> | A (entity start) | N (numeric) | X<cp> (hex char) | Z (entity end), space separated ("-" when empty) *)
+   out: T<cp.cp...> | A (entity start) | N (numeric) | X<cp> (hex char) | Z (entity end) | C (comment start) | D (comment end), space separated ("-" when empty) *)
 let () = iter_lines (fun line ->
   match ints_of_line line with
   | which :: ms :: cps ->
@@ -11,6 +11,8 @@ let () = iter_lines (fun line ->
       | THTMLEntityNumeric -> "N"
       | THTMLEntityHex c -> "X" ^ codes c
       | THTMLEntityEnd -> "Z"
+      | TCommentStart -> "C"
+      | TCommentEnd -> "D"
       | _ -> "?" in
     print_endline (if toks = [] then "-" else String.concat " " (List.map show toks))
   | _ -> print_endline "")
